@@ -33,6 +33,7 @@ vars == <<nst, up, outb, freq, ev, fresh>>
 vw == <<nst, up, outb, freq, fresh>>
 
 CandTriangle == {<<"a", "b", 1>>, <<"b", "c", 1>>, <<"a", "c", 3>>}
+CandLine == {<<"a", "b", 1>>, <<"b", "c", 2>>}
 CandSquare == {<<"a", "b", 1>>, <<"b", "c", 1>>, <<"c", "d", 1>>, <<"a", "d", 2>>, <<"a", "c", 3>>}
 Pairs == {<<a, b>> : a \in Nodes, b \in Nodes}
 Dirs(e) == {<<e[1], e[2]>>, <<e[2], e[1]>>}
